@@ -37,7 +37,10 @@ def ivs(ports):
 
 
 def obs(p):
-    return [p.operator, list(p.items), ivs(p.ports), p.sport, p.line]
+    items = list(p.items)
+    vit = [0, items] if len(items) <= 40 else [1, ivs(items)]
+    return [p.operator, vit, ivs(p.ports), p.sport if len(p.sport) <= 300 else "<long>",
+            p.line if len(p.line) <= 300 else "<long>"]
 
 
 def coq_ops(ops):
@@ -147,25 +150,30 @@ def gen_cases(ctx, ca):
             else:
                 operands.append(str(rnd.randint(1, 65535)))
         ops = []
+        cur = op           # operator currently held by the object: neq write-back through ports costs O(n^2)
         for _ in range(rnd.choice([0, 1, 1, 2, 3])):
             r = rnd.random()
+            if cur == "neq" and not (r < 0.6 or 0.8 <= r < 0.9):
+                r = 0.0
             if r < 0.5:
                 s = rnd.choice(selfs)
-                if op == "neq" and s[0] != "SelfItems":
+                if cur == "neq" and s[0] != "SelfItems":
                     s = ("SelfItems",)
                 ops.append(s)
             elif r < 0.6:
                 ops.append(("PutItems", [rnd.choice(GRID + [rnd.randint(1, 65535)]) for _ in range(rnd.randint(0, 3))]))
-            elif r < 0.7 and op != "neq":
+            elif r < 0.7 and cur != "neq":
                 base = rnd.randint(1, 65000)
                 ops.append(("PutPorts", sorted({base + rnd.randint(0, 6) for _ in range(rnd.randint(0, 4))})))
-            elif r < 0.8 and op != "neq":
+            elif r < 0.8 and cur != "neq":
                 ops.append(("PutSport", rnd.choice(["1-3", "5", "1,3-5", "", "7-7", "9-8", "0-2", "65534-65536", "a",
                                                      "1,,2", "10-12,11-14", "3-5,1"])))
             elif r < 0.9:
                 ops.append(("PutPlatform", rnd.choice(["ios", "nxos", "asa"])))
             else:
-                ops.append(("PutLine", rnd.choice(["eq 1", "", "range 5 1", "gt www", "neq 7", "lt 70000"])))
+                ln = rnd.choice(["eq 1", "", "range 5 1", "gt www", "neq 7", "lt 70000"])
+                ops.append(("PutLine", ln))
+                cur = ln.split()[0] if ln else cur
         m(" ".join([op] + operands), ops, proto, plat, ver, rnd.random() < 0.3)
     return metas
 
